@@ -170,7 +170,9 @@ func (p *parser) parseBinaryExpr(left Node) Node {
 		// e.g. [1] + nums: the result cannot be coerced any more than nums can
 		binaryExp.T = fixedType(binaryExp.T)
 	}
-	p.validateBinaryType(binaryExp)
+	if !p.validateBinaryType(binaryExp) {
+		return nil // type error reported; e.g. {}+1 must not reach wrapAny with the untyped map type
+	}
 	if p.isWSS() {
 		p.formatting.recordWSS(binaryExp)
 	}
@@ -365,12 +367,13 @@ func (p *parser) validateUnaryType(unaryExp *UnaryExpression) bool {
 	return true
 }
 
-func (p *parser) validateBinaryType(binaryExp *BinaryExpression) {
+func (p *parser) validateBinaryType(binaryExp *BinaryExpression) bool {
+	nerr := len(p.errors)
 	tok := binaryExp.Token()
 	op := binaryExp.Op
 	if op == OP_ILLEGAL || op == OP_BANG {
 		p.appendErrorForToken("invalid binary operator", tok)
-		return
+		return false
 	}
 
 	leftType := binaryExp.Left.Type()
@@ -378,7 +381,7 @@ func (p *parser) validateBinaryType(binaryExp *BinaryExpression) {
 	if !(leftType.matches(rightType) || (leftType.Name == ARRAY && op == OP_ASTERISK)) {
 		msg := fmt.Sprintf("mismatched type for %s: %s, %s", op, leftType, rightType)
 		p.appendErrorForToken(msg, tok)
-		return
+		return false
 	}
 
 	switch op {
@@ -410,6 +413,7 @@ func (p *parser) validateBinaryType(binaryExp *BinaryExpression) {
 			p.appendErrorForToken(msg, tok)
 		}
 	}
+	return len(p.errors) == nerr
 }
 
 func (p *parser) parseLiteral() Node {
